@@ -610,6 +610,10 @@ class Inliner:
             fn, body = self.methods[(f.value.id, f.attr)]
             if [ast.unparse(d) for d in fn.decorator_list] == ["staticmethod"]:
                 return fn, body, None
+            if [ast.unparse(d) for d in fn.decorator_list] == ["classmethod"] and f.value.id in {c_.name for c_ in self.tree.body if isinstance(c_, ast.ClassDef)} \
+                    and not any(isinstance(c_, ast.ClassDef) and any(isinstance(b_, ast.Name) and b_.id == f.value.id for b_ in c_.bases) for c_ in ast.walk(self.tree)):
+                # `ClassName.make(...)` naming a class of this module that nothing here subclasses: `cls` is that class
+                return fn, body, f.value
         if isinstance(f, ast.Attribute) and isinstance(f.value, ast.Name) and self.cls_stack:
             cname, sname = self.cls_stack[-1][0], self.cls_stack[-1][1]
             if sname is not None and f.value.id == sname and (cname, f.attr) in self.methods:
@@ -917,6 +921,31 @@ class Inliner:
             if e is None:
                 continue
             setattr(st, fld, self._rewrite_exprs(e))
+        for fld in heads:
+            e = getattr(st, fld)
+            if e is None or isinstance(st, ast.While):
+                continue
+            # `make(...).method(...)` with a new method: the receiver is computed first - bind it, so that the method can be spliced on a plain name
+            order = _eval_order(e)
+            first = None
+            for c in ast.walk(e):
+                if isinstance(c, ast.Call) and isinstance(c.func, ast.Attribute) and isinstance(c.func.value, ast.Call) \
+                        and (c.func.attr in self.unique_methods or c.func.attr in self.unique_static) and any(x is c.func.value for x in order):
+                    R = c.func.value
+                    inside = {id(y) for y in ast.walk(R)}
+                    pos = [k for k, x in enumerate(order) if x is R][0]
+                    if all(id(x) in inside for x in order[:pos]) and self._callee(R) is None:
+                        first = R  # everything evaluated before the receiver is part of the receiver: it can be computed in a statement of its own
+                        break
+            if first is not None:
+                owner = first
+                if True:
+                    tmp = self._fresh(first)
+                    pre = ast.copy_location(ast.Assign(targets=[tmp], value=first, type_comment=None), st)
+                    ast.fix_missing_locations(pre)
+                    _replace_node(st, fld, first, ast.copy_location(ast.Name(id=tmp.id, ctx=ast.Load()), first))
+                    return [pre] + self.process_stmt(st)
+            break
         for fld in heads:
             e = getattr(st, fld)
             if e is None:
